@@ -92,7 +92,9 @@ def stepProc (s : State) (pc : PC) : State × PC :=
     if k < s.faiTotal then
       if s.atomic then (s, .writingFai c (k + 1) s.clock)
       else ({ s with fai := some { src := c, written := k + 1, total := s.faiTotal, mtime := s.clock } }, .writingFai c (k + 1) s.clock)
-    else (s, if s.atomic then .faiClosed c t else .faiDone c)     -- close
+    else  -- close(): flushes what is still buffered, so the file's mtime becomes "now"
+      if s.atomic then (s, .faiClosed c s.clock)
+      else ({ s with fai := some { src := c, written := s.faiTotal, total := s.faiTotal, mtime := s.clock } }, .faiDone c)
   | .faiClosed c t =>   -- atomic only: os.replace(tmp, fai); the file keeps the mtime of its last write
     ({ s with fai := some { src := c, written := s.faiTotal, total := s.faiTotal, mtime := t } }, .faiDone c)
   | .faiDone c =>
@@ -102,7 +104,9 @@ def stepProc (s : State) (pc : PC) : State × PC :=
     if k < s.agpTotal then
       if s.atomic then (s, .writingAgp c (k + 1) s.clock)
       else ({ s with agp := some { src := c, written := k + 1, total := s.agpTotal, mtime := s.clock } }, .writingAgp c (k + 1) s.clock)
-    else (s, if s.atomic then .agpClosed c t else .done (.indexed c) s.fastaContent)
+    else
+      if s.atomic then (s, .agpClosed c s.clock)
+      else ({ s with agp := some { src := c, written := s.agpTotal, total := s.agpTotal, mtime := s.clock } }, .done (.indexed c) s.fastaContent)
   | .agpClosed c t =>
     ({ s with agp := some { src := c, written := s.agpTotal, total := s.agpTotal, mtime := t } },
      .done (.indexed c) s.fastaContent)
